@@ -19,6 +19,7 @@
 extern "C" {
 void h_env_install(void);
 void h_exit_hook(void);
+void* h_memset_hook(void* p, int c, size_t n);   // harness: observes whether the detector poisons memory with the lock held
 }
 class QuietOutput : public TestOutput
 {
@@ -36,6 +37,7 @@ void h_init(void)
     static UtestShell shell("g", "n", "f.cpp", 5);
     h_env_install();
     PlatformSpecificLongJmp = h_exit_hook;
+    PlatformSpecificMemset = h_memset_hook;
     shell.setTestResult(&result);
     shell.setCurrentTest(&shell);
     defaultNewAllocator(); defaultNewArrayAllocator(); defaultMallocAllocator(); NullUnknownAllocator::defaultAllocator();
